@@ -4,6 +4,7 @@ import SlimProps.Bridge.Scan
 import SlimProps.Bridge.Index
 import SlimProps.Bridge.C11
 import SlimProps.Bridge.C20
+import SlimProps.Bridge.C20Text
 import SlimProps.Bridge.Versions
 import SlimProps.Bridge.Tags
 /- SlimProps.Bridge — umbrella of the per-group tie-1 modules (SlimProps/Bridge/*.lean). -/
